@@ -14,8 +14,8 @@ KANI = {
                                 what="two handles on distinct cells never interfere (justifies aliasing model R8)"),
     "k_opt_accept_zero": dict(props=["C05", "C07"], kind="complete", fn="optimisation.rs MCOptimiser::{accept_score,test_acceptance,energy_surface}",
                               what="kT=+0.0, all non-NaN scores, all generator outputs: accepted iff the proposal has a score >= old; exp replaced by its C99 special-value model"),
-    "k_opt_accept_any_kt": dict(props=["C07"], kind="complete", fn="optimisation.rs MCOptimiser::accept_score",
-                                what="every kT bit pattern: None never accepted; accepted value is the proposed one; strictly better always accepted"),
+    "k_opt_accept_any_kt": dict(props=["C07", "C08", "C05"], kind="complete", fn="optimisation.rs MCOptimiser::accept_score",
+                                what="every kT bit pattern: None never accepted; a NaN score never accepted; accepted value is the proposed one; strictly better always accepted"),
     "k_opt_draw_range": dict(props=["C07"], kind="complete", fn="rand 0.7 Standard f64 sampling via Rng::gen",
                              what="the uniform draw lies in [0,1) for every 64-bit generator output (checks the rand shim's range claim on the real crate)"),
 }
@@ -30,7 +30,7 @@ _OPT_ASSUMPTIONS = [
 
 PROPS = {
     "C05": dict(
-        level="proof", units=["opt"], kani=["k_opt_accept_zero"], lemmas=[],
+        level="proof", units=["opt"], kani=["k_opt_accept_zero", "k_opt_accept_any_kt"], lemmas=[],
         explanation="Deductive proof (Verus) that the real optimise_state loop keeps kT bitwise equal to kt_start when kt_start is zero "
                     "(inv.zero), that every accepted score is >= the previous one (accept.monotone) and that the returned state's score is >= the "
                     "input's (exit*.hillclimb), for all steps/inner_steps/ratios/convergence settings and all accept/reject histories; the zero-temperature "
@@ -270,7 +270,7 @@ PROPS["C03"] = dict(
                "convergence error of the truncated sum for the uncut potential", "invariance of the total under re-description of the crystal is argued from the formula, not proved as a two-state theorem"],
 )
 PROPS["C08"] = dict(
-    level="proof", units=["opt", "state", "geom"], kani=["k_basis_set_reset", "k_cell_dof", "k_cell_from_family", "k_site_basis", "k_clone_cell", "k_clone_site"] + ["k_tables_label_%s" % g for g in _GROUPS], lemmas=[],
+    level="proof", units=["opt", "state", "geom"], kani=["k_basis_set_reset", "k_cell_dof", "k_cell_from_family", "k_site_basis", "k_clone_cell", "k_clone_site", "k_opt_accept_any_kt"] + ["k_tables_label_%s" % g for g in _GROUPS], lemmas=[],
     explanation="Verus proves on the real get_degrees_of_freedom / get_basis / generate_basis (both state kinds) that a valid state yields at least one handle, each with the bounds of the property statement "
                 "([0.01, length], [0.1, ratio], [pi/6, pi/2] only for oblique cells, [-1/2,1/2], [0, 2pi/rot]) and the current value inside them; on the real optimiser loop that bounds never change and every value stays inside "
                 "its bounds at every step and at both exits (inv.wf, exit*.held), and that the final assert (defined score) cannot fail. Kani proves the same bounds, the frame (a parameter without a handle keeps its bits: the cell stays in its family) "
